@@ -99,6 +99,9 @@ func (k Keeper) CallEVMWithData(
 		true,                  // checkNonce
 	)
 
+	if err := verifFault("evm.before"); err != nil {
+		return nil, err
+	}
 	res, err := k.evmKeeper.ApplyMessage(ctx, msg, evmtypes.NewNoOpTracer(), true)
 	if err != nil {
 		return nil, err
@@ -114,6 +117,11 @@ func (k Keeper) CallEVMWithData(
 			// If hooks return error, revert the whole tx.
 			res.VmError = evmtypes.ErrPostTxProcessing.Error()
 			k.Logger(ctx).Error("tx post processing failed", "error", err)
+		}
+	}
+	if !res.Failed() {
+		if err := verifFault("evm.afterCommit"); err != nil {
+			res.VmError = err.Error()
 		}
 	}
 	if res.Failed() {
